@@ -25,6 +25,7 @@ import SSEPyVerif.Proofs.Schemes.DP17
 import SSEPyVerif.Proofs.Schemes.ChainComplete
 import SSEPyVerif.Proofs.Schemes.CT14Complete
 import SSEPyVerif.Proofs.Schemes.PiPtrComplete
+import SSEPyVerif.Proofs.Schemes.Pi2LevComplete
 import SSEPyVerif.Proofs.Schemes.DP17Room
 namespace SSEPy.C01
 open SSEPy.Sch SSEPy.Sch.Chain
@@ -421,5 +422,20 @@ theorem DP17.enc_no_index_error (cfg : DP17Cfg) (lv : Leaves) (k1 k2 : Bytes) (l
     ∀ e, DP17.encDb cfg lv k1 k2 levels db ls0 [] t = .error e → e ≠ .indexError :=
   DP17.room_for_every_chunk_partial cfg lv k1 k2 levels db ls0 t hinit
     (fun p hp => DP17.findAdjacent_ok cfg levels p.2.length hL hasc hnn (hfits p hp)) d hd0 hsha
+
+/-- Pi2Lev: `EDBSetup` NEVER RAISES for a valid database: accepted configuration with a positive pointer width and
+    `prf_f_output_length = param_lambda`, key of `param_lambda` bytes, every list shorter than `B·B'·b'` (the two-level
+    limit), an array that the pointer width can address, and a recorded `random.sample` of `range(1, |A|)`.  The only
+    failure left in the model is `.miss`.  The array has a free slot for every block that is stored: `⌈n/B⌉` identifier
+    blocks for a medium or large list and, for a large one, `⌈⌈n/B⌉/B'⌉ = ⌈n/(B·B')⌉` first-level pointer blocks — the count
+    `EDBSetup` sizes the array with. -/
+theorem Pi2Lev.setup_never_raises (raw : RawCfg) (cfg : Pi2LevCfg) (hcfg : Pi2Lev.cfgBuild raw = .ok cfg)
+    (hidx : 0 < cfg.idxSize) (hout : getInt raw "prf_f_output_length" = getInt raw "param_lambda")
+    (lv : Leaves) (hl : LeafLaws lv) (K : Bytes) (hK : (K.length : Int) = cfg.lambda) (db : DB) (t : Tape)
+    (hcap : ∀ p ∈ db, (p.2.length : Int) < (cfg.B * cfg.Bp) * cfg.bp)
+    (hfit : Pi2Lev.arrayLen cfg db ≤ 2 ^ (cfg.idxSize * 8).toNat)
+    (hsample : ∀ sample t0, takeNats t = .ok (sample, t0) → ∀ p ∈ sample, p < Pi2Lev.arrayLen cfg db)
+    (e : Err) (h : Pi2Lev.setup cfg lv K db t = .error e) : e = .miss :=
+  Pi2Lev.setup_onlyMiss cfg lv hl (Pi2Lev.cfgBuild_usable cfg raw hcfg hidx hout) K hK db t hcap hfit hsample e h
 
 end SSEPy.C01
